@@ -172,7 +172,8 @@ def build(inp):
         m = rand_herm(ch["seed"], int(np.prod(dd)))
         q = qutip.Qobj(m, dims=[dd, dd])
         ops.append(q)
-        proc.add_control(q, targets=list(ch["targets"]), label=ch["label"])
+        if ch.get("ctrl", True):       # False: the channel exists only as a Pulse object given to add_pulse
+            proc.add_control(q, targets=list(ch["targets"]), label=ch["label"])
         mats["ctrl"].append(embed(m, ch["targets"], dims))
 
     def arr(x):
@@ -186,9 +187,30 @@ def build(inp):
         proc.set_tlist({ch["label"]: arr(ch["tlist"]) for ch in inp["channels"]})
     else:
         for ch, q in zip(inp["channels"], ops):
+            kw = pulse_label_kw(ch)
             proc.add_pulse(Pulse(q, list(ch["targets"]), tlist=arr(ch["tlist"]), coeff=cof(ch["coeff"]),
-                                 spline_kind=kind, label=ch["label"]))
+                                 spline_kind=kind, **kw))
     return proc, mats
+
+
+def pulse_label_kw(ch):
+    """label given to the Pulse object: the channel's own label (default), Pulse's default label (argument
+    omitted), None, or an explicit string that several pulses may share"""
+    pl = ch.get("pulse_label")
+    if pl is None or pl.get("kind") == "own":
+        return {"label": ch["label"]}
+    if pl["kind"] == "default":
+        return {}
+    if pl["kind"] == "none":
+        return {"label": None}
+    return {"label": pl["value"]}
+
+
+def labels_own(inp):
+    """every pulse carries its own unique control label and the control is registered (needed by the file
+    format of save_coeff/read_coeff, which identifies columns by label)"""
+    return all(ch.get("ctrl", True) and (ch.get("pulse_label") is None or ch["pulse_label"].get("kind") == "own")
+               for ch in inp["channels"])
 
 
 def fracs(a):
@@ -349,7 +371,8 @@ def total_product(us, d):
     return p
 
 
-def oracle_case(inp, impl=None, proc=None, mats=None, solver=False, files=True, states=True):
+def oracle_case(inp, impl=None, proc=None, mats=None, solver=False, files=True, states=True,
+                solver_max_step=None):
     """returns list of failure dicts (observed/expected/what) for this input"""
     fails = []
 
@@ -434,13 +457,13 @@ def oracle_case(inp, impl=None, proc=None, mats=None, solver=False, files=True, 
         except Exception as e:
             fail("get_qobjevo raised on a valid input", repr(e)[:200], "QobjEvo")
         if solver:
-            fails += oracle_solver(inp, exp_tot)
-        if files:
+            fails += oracle_solver(inp, exp_tot, solver_max_step)
+        if files and labels_own(inp):
             fails += oracle_files(inp, impl, got_tot)
     return fails
 
 
-def oracle_solver(inp, exp_tot):
+def oracle_solver(inp, exp_tot, max_step=None):
     """master-equation / Schroedinger solver path, under the Options shim (environmental)"""
     import qutip
     fails = []
@@ -458,7 +481,10 @@ def oracle_solver(inp, exp_tot):
             for st, mode in ((ket, "ket"), (qutip.ket2dm(ket), "dm")):
                 proc, _ = build(inp)
                 try:
-                    res = proc.run_state(init_state=st)
+                    if max_step is None:
+                        res = proc.run_state(init_state=st)
+                    else:
+                        res = proc.run_state(init_state=st, options={"max_step": float(max_step)})
                     fin = np.asarray(res.states[-1].full())
                 except Exception as e:
                     fails.append(dict(input=inp, observed=repr(e)[:200], expected="final state",
@@ -622,6 +648,33 @@ def gen_valid(rng, late=False, kind="step", nch=None):
                 mode=rng.choice(["direct", "setters"]), state_seed=rng.randint(0, 10 ** 6))
 
 
+def gen_shared_labels(rng):
+    """processors assembled from ready-made Pulse objects (add_pulse) whose labels are the default '', None or
+    explicitly equal, possibly mixed with named add_control channels; the Hamiltonians/targets differ"""
+    inp = gen_valid(rng, nch=rng.choice([2, 2, 3, 3, 4]))
+    inp["mode"] = "direct"
+    chans = inp["channels"]
+    policy = rng.choice(["all-default", "all-none", "dup-string", "mixed", "mixed"])
+    for m, ch in enumerate(chans):
+        if policy == "all-default":
+            ch["pulse_label"] = {"kind": "default"}
+        elif policy == "all-none":
+            ch["pulse_label"] = {"kind": "none"}
+        elif policy == "dup-string":
+            ch["pulse_label"] = {"kind": "str", "value": "sx" if m != 1 or len(chans) == 2 else "sy"}
+        else:
+            ch["pulse_label"] = rng.choice([{"kind": "own"}, {"kind": "default"}, {"kind": "default"},
+                                            {"kind": "none"}, {"kind": "str", "value": chans[0]["label"]}])
+        ch["ctrl"] = rng.random() < 0.5
+    if policy == "mixed" and all(ch["pulse_label"]["kind"] == "own" for ch in chans):
+        chans[-1]["pulse_label"] = {"kind": "str", "value": chans[0]["label"]}
+    # make sure two pulses that share a label have different embedded Hamiltonians
+    for m in range(1, len(chans)):
+        if chans[m]["targets"] == chans[0]["targets"] and chans[m]["seed"] == chans[0]["seed"]:
+            chans[m]["seed"] += 1
+    return inp
+
+
 def gen_consts(rng):
     """array pulses mixed with constant pulses (coeff=True/False, or no coefficient at all)"""
     inp = gen_valid(rng, nch=rng.choice([2, 3, 4]))
@@ -737,6 +790,11 @@ def branch_tags(inp):
         tags.add("no coeff")
     if inp.get("drift"):
         tags.add("drift")
+    kws = [json.dumps(pulse_label_kw(c), sort_keys=True) for c in chans] if inp.get("mode", "direct") == "direct" else []
+    if len(set(kws)) < len(kws):
+        tags.add("pulses sharing a label")
+    if any(not c.get("ctrl", True) for c in chans):
+        tags.add("pulse without add_control")
     if any(len(c["targets"]) > 1 for c in chans):
         tags.add("two-subsystem control")
     return tags
@@ -767,6 +825,8 @@ def correspond(ctx):
         inputs.append(("late-start", gen_valid(rng, late=True)))
     for _ in range(ctx.n(60, 500)):
         inputs.append(("leak-family", leak_family(rng)))
+    for _ in range(ctx.n(70, 500)):
+        inputs.append(("shared-labels", gen_shared_labels(rng)))
     for _ in range(ctx.n(50, 400)):
         inputs.append(("constants", gen_consts(rng)))
     for _ in range(ctx.n(80, 600)):
@@ -783,7 +843,7 @@ def correspond(ctx):
     # file-model cases: valid property-domain inputs, every 4th
     filecases = []
     for idx, c in enumerate(cases):
-        if in_property_domain(c) and len(filecases) < ctx.n(60, 300) and idx % 3 == 0:
+        if in_property_domain(c) and labels_own(c) and len(filecases) < ctx.n(60, 300) and idx % 3 == 0:
             filecases.append((idx, bool(idx % 2)))
     models, fres = run_models(ctx.tier, cases, filecases)
 
@@ -822,7 +882,8 @@ def correspond(ctx):
         if dom != mod["okb"]:
             corr.disagree(inp, dom, mod["okb"], "inputs_okb vs the harness's statement of the theorem domain")
         # --- property oracle on the real code
-        use_solver = in_property_domain(inp) and n_solver > 0 and kind in ("valid", "leak-family", "corpus")
+        use_solver = in_property_domain(inp) and n_solver > 0 and (
+            kind in ("valid", "leak-family", "corpus") or (kind == "shared-labels" and idx % 5 == 0))
         if use_solver:
             n_solver -= 1
         light = kind not in ("corpus",) and idx % 2 != 0       # the heavier re-runs on every second case
@@ -989,6 +1050,20 @@ def _classify(failure):
                 return None
             if not again:
                 return "step-last-sample-leak"
+    if "solver evolution" in what and in_property_domain(inp):
+        # Processor.run_state caps the integrator step at T/10 only; an interval of the merged grid that is
+        # shorter can be stepped over.  Inside the class iff the failure disappears with a step cap below the
+        # shortest interval.
+        grid = sorted(set(all_points(inp)))
+        gaps = [grid[i + 1] - grid[i] for i in range(len(grid) - 1)]
+        if gaps and min(gaps) < (grid[-1] - grid[0]) / 10:
+            try:
+                again = [f for f in oracle_case(inp, solver=True, files=False, states=False,
+                                                solver_max_step=min(gaps) / 4) if "solver evolution" in f["what"]]
+            except Exception:
+                return None
+            if not again:
+                return "solver-max-step-skips-short-interval"
     return None
 
 
@@ -1000,6 +1075,7 @@ def search(ctx, broken):
     pool += [gen_valid(rng) for _ in range(ctx.n(100, 600))]
     pool += [gen_valid(rng, late=True) for _ in range(ctx.n(30, 100))]
     pool += [gen_consts(rng) for _ in range(ctx.n(30, 100))]
+    pool += [gen_shared_labels(rng) for _ in range(ctx.n(40, 150))]
     for inp in pool:
         try:
             fs = oracle_case(inp)
